@@ -110,7 +110,10 @@ def _wrong_value_like(node, rng_pick):
         if r == "N2":
             return ["35", ("1.0", "2.0"), [1.0, "2"], b"12"][rng_pick % 4]
         return ["3.5", " 7 ", b"300", [2.0]][rng_pick % 4]
-    return ["12.5", " -7 ", "nan", b"300", [4.0], "1e3", "inf"][rng_pick % 7]
+    import numpy as np
+
+    # ... and "not-a-number" values of classes that are not numbers: they compare unequal to themselves like a float NaN
+    return ["12.5", " -7 ", "nan", b"300", [4.0], "1e3", "inf", decimal.Decimal("NaN"), complex("nan"), np.datetime64("NaT")][rng_pick % 10]  # (numpy counts timedelta64 as an integer type: not a wrong type)
 
 
 def _fault_quantity(node):
